@@ -38,14 +38,83 @@ func requireSites(p *Prog, r *Report, fn *ssa.Function, kind, desc string, pred 
 // ordPrecede: every path from entry to B passes A.
 func ordPrecede(p *Prog, r *Report, fn *ssa.Function, kind string, edges EdgeFilter, A InstrPred, descA string, B InstrPred, descB string) {
 	what := fmt.Sprintf("every path to %s passes %s first", descB, descA)
-	if !requireSites(p, r, fn, kind, descB, B, 1) || !requireSites(p, r, fn, kind, descA, A, 1) {
+	// B registered with `defer` runs at every exit after the registration
+	deferB := func(in ssa.Instruction) bool {
+		if _, ok := in.(*ssa.Defer); !ok {
+			return false
+		}
+		if B(in) {
+			return false // B is about the registration itself
+		}
+		deferAsEvent = true
+		defer func() { deferAsEvent = false }()
+		return B(in)
+	}
+	nDef := countInstr(fn, deferB)
+	if !requireSites(p, r, fn, kind, descB, orPred(B, deferB), 1) || !requireSites(p, r, fn, kind, descA, A, 1) {
 		return
 	}
 	if w := mustPrecede(fn, edges, A, B); w != nil {
 		r.Fail(fnName(fn), kind+":order", what, fmt.Sprintf("a path reaches %s without passing %s", descB, descA), p.posOfLast(w, B), p.renderPath(w))
 		return
 	}
+	if nDef > 0 {
+		// every way out after the registration — a return, a panic, a call that can unwind the goroutine
+		// with the exit panic — must have passed A
+		unwinds := exitPanicCalls(p)
+		canUnwind := func(in ssa.Instruction) bool {
+			c, ok := in.(*ssa.Call)
+			if !ok || c.Call.IsInvoke() {
+				return false
+			}
+			callee := staticCallee(&c.Call)
+			if callee == nil {
+				callee = closureCallee(&c.Call)
+			}
+			return callee != nil && unwinds[callee]
+		}
+		// A call of A that returns has completed; one that unwinds has not
+		out := func(in ssa.Instruction) bool { return isReturn(in) || isPanic(in) || (canUnwind(in) && !A(in)) }
+		unwindingA := func(in ssa.Instruction) bool { return A(in) && canUnwind(in) }
+		// only registrations that A need not have preceded matter
+		if findPath(entryPoint(fn), edges, A, deferB) == nil {
+			r.OK(fnName(fn), kind, what)
+			return
+		}
+		w := findPath(after(fn, deferB), edges, A, out)
+		last := out
+		if w == nil {
+			// reaching an A that can unwind, with no completed A before it
+			w = findPath(after(fn, deferB), edges, func(in ssa.Instruction) bool { return A(in) && !canUnwind(in) }, unwindingA)
+			last = unwindingA
+		}
+		if w != nil {
+			r.Fail(fnName(fn), kind+":deferred-order", what, fmt.Sprintf("%s is deferred, and after its registration a way out of the function (a return, or a call that can unwind the goroutine with the exit panic) is reachable without passing %s: the deferred call then runs although %s never completed", descB, descA, descA), p.posOfLast(w, last), p.renderPath(w))
+			return
+		}
+	}
 	r.OK(fnName(fn), kind, what)
+}
+
+// deferAsEvent lets evCall match a Defer instruction (used by ordPrecede to find deferred sites of B).
+var deferAsEvent bool
+
+var exitPanicCache map[*Prog]map[*ssa.Function]bool
+
+// exitPanicCalls: functions from which compactionExitTransact (the deliberate exit panic) is reachable.
+func exitPanicCalls(p *Prog) map[*ssa.Function]bool {
+	if m, ok := exitPanicCache[p]; ok {
+		return m
+	}
+	if exitPanicCache == nil {
+		exitPanicCache = map[*Prog]map[*ssa.Function]bool{}
+	}
+	m := map[*ssa.Function]bool{}
+	if exit := p.Fn("leveldb", "(*DB).compactionExitTransact"); exit != nil {
+		m = reachersOf(p.CG(), exit)
+	}
+	exitPanicCache[p] = m
+	return m
 }
 
 // ordOnSuccess: every success path (no error observed, assumptions applied) from entry to a
